@@ -296,7 +296,9 @@ def run_case(case, ctx):
                 if len(errs) > 1 or "ok" in errs:
                     ctx.violation("hash-raises-sometimes", f"value {can[:200]}: {errs}", dict(spec=spec))
                 else:
-                    ctx.count("values_unhashable")
+                    # every value of the universe is made of picklable builtins, decimals and importable classes: joblib.hash
+                    # has no reason to refuse it (Memory would reject a call the function accepts)
+                    ctx.violation("hash-raises", f"value {can[:200]}: {errs}", dict(spec=spec))
                 continue
             ctx.count("values_compared")
             ctx.maxi("processes_per_value", len(rows))
